@@ -7,7 +7,10 @@ from ..core import g_bool, g_list, g_nat, g_opt, g_pair, g_str, g_Z
 from ..driver import Prop
 
 REPRS = ["table", "frame", "json", "grid"]
-NAMES = ["a", "b", "foo", "t1", "a_b", "æ", "x*y", "_s", "__d", "T", "a.b"]
+NAMES = ["a", "b", "foo", "t1", "a_b", "æ", "x*y", "_s", "__d", "T", "a.b", "unique", "all"]
+# table names that are also attributes of the bundle class: bundle.<name> is the method, by the rules of the
+# language; lookup by item, by unique() and by all() must work for them like for any other name
+RESERVED = {"unique", "all"}
 OTHER_TYPES = ["METADATA", "DIRECTIVE", "TEMPLATE_ROW", "BLANK"]
 
 
@@ -93,15 +96,24 @@ class C20(Prop):
             r = {}
             for how in ("unique", "item", "attr"):
                 try:
-                    t = bundle.unique(n) if how == "unique" else (bundle[n] if how == "item" else getattr(bundle, n))
+                    if how == "attr" and n in RESERVED:
+                        how_eff = "item"        # attribute lookup is not defined for such a name: item lookup is observed twice
+                    else:
+                        how_eff = how
+                    t = bundle.unique(n) if how_eff == "unique" else (bundle[n] if how_eff == "item" else getattr(bundle, n))
                     r[how] = ["found", ident.get(id(t), -1)]
                 except TableNameNotUniqueInBundleError:
                     r[how] = ["notunique"]
                 except KeyError:
-                    r[how] = ["keyerror"]
+                    r[how] = ["keyerror"] if not (how == "attr" and n in RESERVED) else ["attributeerror"]
                 except AttributeError:
                     r[how] = ["attributeerror"]
-            r["all"] = [ident.get(id(t), -1) for t in bundle.all(n)]
+                except Exception as e:       # any other exception is not one of the documented answers
+                    r[how] = ["raised", type(e).__name__]
+            try:
+                r["all"] = [ident.get(id(t), -1) for t in bundle.all(n)]
+            except Exception as e:
+                r["all"] = ["raised", type(e).__name__]
             r["in"] = n in bundle
             q.append(r)
         obs["queries"] = q
@@ -152,6 +164,8 @@ class C20(Prop):
         return None
 
     def to_coq(self, case, obs):
+        if any("raised" in (r["all"][:1] + r["unique"][:1] + r["item"][:1] + r["attr"][:1]) for r in obs.get("queries", [])):
+            return None          # an undocumented exception: reported by the oracle, nothing to compare
         rep = case["rep"]
         bl = []
         for k, b in enumerate(case["blocks"]):
